@@ -116,6 +116,36 @@ def run_case(c):
         if c["cache"]:
             _ = m.face_normals, m.vertex_normals, m.edges, m.volume
         v0, k0 = np.array(m.vertices), _trikey(m)
+        # what fix_winding works on: adjacent pairs, whether their shared edge runs the same way, and the
+        # search tree it walks (the same networkx calls, in the same order, as repair.fix_winding)
+        if len(F) <= 400:
+            import networkx as nx
+            from trimesh.geometry import faces_to_edges
+            from trimesh.grouping import group_rows
+            from trimesh import repair
+            m2 = trimesh.Trimesh(np.array(base.vertices), F.copy(), process=False)
+            adj = np.array(m2.face_adjacency)
+            same = []
+            for pr in adj:
+                e = faces_to_edges(F[pr])
+                ov = group_rows(np.sort(e, axis=1), require_count=2)
+                ep = e[ov[0]]
+                same.append(bool(ep[0][0] == ep[1][0]))
+            tree = []
+            if not m2.is_winding_consistent:
+                g_all = nx.from_edgelist(adj)
+                for comp in nx.connected_components(g_all):
+                    g = g_all.subgraph(comp)
+                    start = next(iter(g.nodes()))
+                    tree.extend([int(a), int(b)] for a, b in nx.bfs_edges(g, start))
+            repair.fix_winding(m2)
+            F2 = np.array(m2.faces)
+            o["winding_model"] = {"adj": adj.tolist(), "same": same, "tree": tree, "n": len(F),
+                                  "impl_flips": [bool(np.array_equal(F2[i], F[i][::-1]) and not np.array_equal(F2[i], F[i]))
+                                                 for i in range(len(F))],
+                                  "impl_other_change": bool(any(not np.array_equal(F2[i], F[i]) and
+                                                                not np.array_equal(F2[i], F[i][::-1]) for i in range(len(F)))),
+                                  "impl_consistent": bool(m2.is_winding_consistent)}
         m.fix_normals()
         o.update({"watertight": bool(m.is_watertight), "winding": bool(m.is_winding_consistent), "volume": float(m.volume),
                   "verts_same": bool(np.array_equal(v0, m.vertices)), "tris_same": _trikey(m) == k0,
@@ -219,6 +249,9 @@ def _q(x):
 
 
 def model_request(c, o):
+    if "err" not in o and "winding_model" in o:
+        wm = o["winding_model"]
+        return {"p": "C18", "op": "winding", "adj": wm["adj"], "same": wm["same"], "tree": wm["tree"], "n": wm["n"]}
     if "err" in o or "tris0" not in o:
         return None
     return {"p": "C18", "tris": [[[_q(x) for x in p] for p in t] for t in o["tris0"]]}
@@ -229,6 +262,19 @@ def compare(c, o, m):
         return "model error: " + str(m["err"])
     from fractions import Fraction
     f = lambda q: float(Fraction(q[0], q[1]))  # noqa
+    if "winding_model" in o:
+        wm = o["winding_model"]
+        if not m["tree_order"]:
+            return "fix_winding: the edges handed out by the search are not in tree order (a child seen before)"
+        if wm["impl_other_change"]:
+            return "fix_winding changed a face other than by reversing it"
+        if m["flips"] != wm["impl_flips"]:
+            return "fix_winding reversed a different set of faces than the traversal model: %r vs %r" % (
+                [i for i, b in enumerate(wm["impl_flips"]) if b], [i for i, b in enumerate(m["flips"]) if b])
+        if closed_orientable(c) and not (m["consistent"] and wm["impl_consistent"]):
+            return "fix_winding: adjacent pairs left inconsistent on an orientable surface (contradicts C18_fix_winding)"
+        STATS["winding_traversals_compared"] = STATS.get("winding_traversals_compared", 0) + 1
+        return None
     if Fraction(*m["vol"]) != Fraction(*m["vol_sub"]):
         return "model: subdivision changed the signed volume"
     want = sorted(tuple(sorted(tuple(round(f(x), 12) for x in p) for p in t)) for t in m["children"])
@@ -242,6 +288,13 @@ def compare(c, o, m):
     if np.abs(av1 - av0).max() > 1e-9 * max(1.0, np.abs(av0).max()):
         return "subdivide: children are not wound like their parents"
     return None
+
+
+def closed_orientable(c):
+    return True      # every base mesh of this module is an orientable surface (flips only reverse faces)
+
+
+STATS = {}
 
 
 def nontrivial(c, o):
